@@ -426,7 +426,19 @@ func runC15(c *core.Ctx) {
 					}
 					trace = append(trace, fmt.Sprintf("AddChannel(%d,%d,%d)=%v", f, min, max, err != nil))
 					if reg.ExtraChannels {
-						if err != nil {
+						// an ordinary addition - a new frequency near the band's own channels with data-rates of the
+						// band - is what "any sequence of channel additions" is about, and refusing it would leave
+						// nothing to check; a placeholder (0), a frequency far from the band or one the plan has
+						// already may be refused by a stricter AddChannel: the plan then simply does not grow
+						plain := f != 0 && f >= reg.Uplink[0].Freq-reg.Uplink[0].Freq%step && f <= reg.Uplink[0].Freq+40000*step
+						for _, k := range up {
+							if k.freq == f {
+								plain = false
+							}
+						}
+						if err != nil && !plain {
+							c.Count("addchannel.exotic-refused", 1)
+						} else if err != nil {
 							c.Violate("C15|"+cfg.Name+"|addchannel-refused", "%v", err)
 						} else {
 							// a placeholder slot (frequency 0) starts out disabled, everything else enabled
@@ -436,7 +448,10 @@ func runC15(c *core.Ctx) {
 						kind = "add"
 					} else {
 						if err == nil {
-							c.Violate("C15|"+cfg.Name+"|addchannel-accepted", "band without extra channels accepted AddChannel")
+							// the library refuses extra channels on the fixed plans; the property does not ask
+							// for that. The model of this history has no such channel, so it ends here
+							c.Count("histories-ended.fixed-plan-accepted-addchannel", 1)
+							good = false
 						}
 						kind = "add-unsupported"
 					}
@@ -514,9 +529,7 @@ func runC15(c *core.Ctx) {
 				c.Eval(1)
 				if p, msg := core.Guard(func() { off, err = b.GetTXPowerOffset(i) }); p {
 					c.Violate("C15|"+cfg.Name+"|panic|GetTXPowerOffset", "GetTXPowerOffset(%d) panics: %s", i, short(msg, 200))
-				} else if i < 0 && err == nil {
-					c.Violate("C15|"+cfg.Name+"|invalid-accepted|GetTXPowerOffset", "GetTXPowerOffset(%d) = %d", i, off)
-				} else if err == nil && off != -2*i {
+				} else if i >= 0 && err == nil && off != -2*i { // a negative TX-power index is outside the properties: no panic is all
 					c.Violate("C15|"+cfg.Name+"|txpower", "GetTXPowerOffset(%d) = %d", i, off)
 				}
 			}
